@@ -51,7 +51,7 @@ def check(ctx):
                        msg="transport.write(%s): not the whole encoding of exactly one client-to-broker packet (classes %s)" % (show(e.a["data"]), sorted(cl)))
                 if tr.slot is not None:
                     slot_writes.setdefault(tr.slot, []).append((tr, e, cl))
-                elif tr.kind in ("API", "NET") and not any(x.kind == "DISPATCH" for x in tr.events):
+                elif tr.kind in ("API", "NET", "AUX") and not any(x.kind == "DISPATCH" for x in tr.events):
                     # not routed through the state object at all: the write happens in whatever state the protocol is, IDLE included
                     slot_writes.setdefault("IDLE", []).append((tr, e, cl))
                 if "CONNECT" in cl:
